@@ -219,12 +219,17 @@ func TestC18(t *testing.T) {
 				v.Close()
 			}
 			nops := probe.Seq()
-			for i := 0; i < nops; i++ {
+			for i2 := 0; i2 < 2*nops; i2++ {
+				i := i2 / 2
+				ferr := error(syscall.EIO)
+				if i2%2 == 1 {
+					ferr = syscall.EINTR // an errno callers like to retry on
+				}
 				leaf := newVFs(afero.NewOsFs(), "leaf")
 				leaf.record = false
 				leaf.Hook = func(e FsEvent) *FsFault {
 					if e.Seq == i {
-						return &FsFault{Err: syscall.EIO}
+						return &FsFault{Err: ferr}
 					}
 					return nil
 				}
@@ -248,7 +253,7 @@ func TestC18(t *testing.T) {
 					img, err = canonicalImage(v, 1<<20, size+1<<20)
 				}()
 				r.Transition(1)
-				key := sprintf("%s fault@%d", desc, i)
+				key := sprintf("%s fault@%d/%v", desc, i, ferr)
 				r.State(key)
 				r.Nontrivial(key)
 				if _, isPanic := err.(errPanic); isPanic {
